@@ -56,6 +56,23 @@ func sets() []set {
 		a3, b3 := scn("sack", 0, "", 3), scn("sack", 1, "", 2)
 		out = append(out, set{"sack-relaxed+sack-relaxed/different-ports", []proto.Scn{a3, b3}})
 	}
+	// the same with capture filtering off (it is only an optimisation, a no-op on some platforms)
+	for _, v := range []string{"syn", "synparis", "sackstrict"} {
+		a, b := scn(v, 0, "", 3), scn(v, 1, "", 2)
+		a.FiltersOff, b.FiltersOff = true, true
+		if v == "sackstrict" {
+			b.ShareListener = 1
+		}
+		out = append(out, set{v + "+" + v + "/same-target/filters-off", []proto.Scn{a, b}})
+		if v != "sackstrict" {
+			// the target port is closed: it answers with a bare RST, which carries no acknowledgement number to tell the runs apart
+			a2, b2 := scn(v, 0, "", 3), scn(v, 1, "", 2)
+			a2.FiltersOff, b2.FiltersOff = true, true
+			a2.Hops = map[int]proto.HopSpec{3: {Form: "rst"}, 4: {Form: "rst"}}
+			b2.Hops = map[int]proto.HopSpec{2: {Form: "rst"}, 3: {Form: "rst"}, 4: {Form: "rst"}}
+			out = append(out, set{v + "+" + v + "/same-target/filters-off/closed-port", []proto.Scn{a2, b2}})
+		}
+	}
 	// protocol mixes
 	out = append(out, set{"icmp4+udp4+syn/same-target", []proto.Scn{scn("icmp4", 0, "", 3), scn("udp4", 1, "", 2), scn("syn", 2, "", 4)}})
 	out = append(out, set{"udp4+udp4+udp4/same-target", []proto.Scn{scn("udp4", 0, "", 3), scn("udp4", 1, "", 2), scn("udp4", 2, "", 4)}})
